@@ -6,6 +6,7 @@ CONSTANTS
   Rets <- RetsAll
   Advs <- AdvsExact
   Decs <- DecsSleep
+  BFaults <- BFaultsNone
   Ras <- RasSome
   Modes = {"exec"}
   NRuns = 1
